@@ -84,6 +84,17 @@ def run(run, P, only=None):
                     l = ap(a)
                     if (t.get('fn'), j) in D and l and '.' not in l and '>' not in l and not l.startswith('&'):
                         sites.append((ev, l))
+                # hand-over with a release callback: g(.., release_func, app_ptr) owns app_ptr from the call on, whether it succeeds or not
+                # (R-RELEASE-ONCE proves that g calls the callback exactly once on every path, the failing ones included)
+                g = P.funcs.get(t.get('fn')) if t.get('fn') else None
+                if g:
+                    pn = [p['n'] for p in g.get('params') or ()]
+                    if 'release_func' in pn and pn.index('release_func') + 1 < len(t.get('a', [])):
+                        r_ = pn.index('release_func')
+                        from core.prog import is_null_const as _isnull
+                        l = ap(t['a'][r_ + 1])
+                        if not _isnull(t['a'][r_]) and l and '.' not in l and '>' not in l and not l.startswith('&'):
+                            sites.append((ev, l))
         if not sites:
             continue
         locs = set(l for _e, l in sites)
